@@ -130,6 +130,71 @@ fn hardware(op: &str, a: Opd, b: Opd) -> String {
     format!("ok f:{:016x}", f64_bits_canon(r))
 }
 
+
+/// (significand, exponent) of a finite float: value = m * 2^e
+fn decompose(bits: u64) -> (u64, i32) {
+    let ex = ((bits >> 52) & 0x7ff) as i32;
+    let mant = bits & ((1u64 << 52) - 1);
+    if ex == 0 { (mant, -1074) } else { (mant | (1u64 << 52), ex - 1075) }
+}
+
+/// How the exact magnitude `p * 2^e` relates to the binary64 grid: "exact", "tie" (exactly half
+/// way between two neighbours) or "inexact". Measured with integer arithmetic, independent of the
+/// model; only used for the distribution report.
+fn grid_class(p: u128, e: i32) -> &'static str {
+    if p == 0 {
+        return "exact";
+    }
+    let bits = 128 - p.leading_zeros() as i32;
+    // exponent of the last kept bit: 53 significant bits, but not below 2^-1074
+    let lsb = (e + (bits - 53)).max(-1074);
+    let shift = lsb - e;
+    if shift <= 0 {
+        return "exact";
+    }
+    if shift > 127 {
+        return "inexact";
+    }
+    let low = p & ((1u128 << shift) - 1);
+    if low == 0 {
+        "exact"
+    } else if low == 1u128 << (shift - 1) {
+        "tie"
+    } else {
+        "inexact"
+    }
+}
+
+/// rounding class of `a op b` for finite float operands (`None` when not classified)
+fn rounding_class(op: &str, a: f64, b: f64) -> Option<&'static str> {
+    if !a.is_finite() || !b.is_finite() {
+        return None;
+    }
+    let (ma, ea) = decompose(a.to_bits());
+    let (mb, eb) = decompose(b.to_bits());
+    match op {
+        "mul" => Some(grid_class(ma as u128 * mb as u128, ea + eb)),
+        "add" | "sub" => {
+            if ma == 0 || mb == 0 {
+                return Some("exact");
+            }
+            if (ea - eb).abs() > 64 {
+                return Some("far");
+            }
+            let e = ea.min(eb);
+            let x = (ma as i128) << (ea - e);
+            let y = (mb as i128) << (eb - e);
+            let x = if a.is_sign_negative() { -x } else { x };
+            let mut y = if b.is_sign_negative() { -y } else { y };
+            if op == "sub" {
+                y = -y;
+            }
+            Some(grid_class((x + y).unsigned_abs(), e))
+        }
+        _ => None,
+    }
+}
+
 // ---------------------------------------------------------------- generators
 
 const SIGN: u64 = 1 << 63;
@@ -520,6 +585,9 @@ fn run_unit(tera: &Tera, exe: &std::path::Path, pairs: &[(Opd, Opd, usize)], lat
             if fin && rc == "subnormal" && matches!(c.op, "mul" | "div") {
                 *out.hist.entry("threshold.underflow-mul-div".into()).or_insert(0) += 1;
             }
+        }
+        if let Some(rc) = rounding_class(c.op, c.a.as_f64(), c.b.as_f64()) {
+            *out.hist.entry(format!("rounding.{}.{rc}", c.op)).or_insert(0) += 1;
         }
         // direct oracle: hardware arithmetic
         out.oracle_checks += 1;
